@@ -8,7 +8,7 @@ from ..cfg import NORMAL, Node
 from ..core import Ctx
 from ..flow import ALL, find_path, names_in
 from ..model import AnalysisError, FunctionInfo, dotted, norm_text
-from .common import edge_target, kwarg, reachable_from
+from .common import EnumVal, edge_target, kwarg, reachable_from, scenario_walk
 
 EXPLANATION = (
     "Static analysis of the append path: (R1) writer/validator agreement - the schema-field keys CONSUMED where they decide "
@@ -116,6 +116,14 @@ def r1(ctx: Ctx) -> None:
             unordered, how = True, ".add()"
         if isinstance(n, ast.Call) and isinstance(n.func, ast.Name) and n.func.id == "sorted":
             unordered, how = True, "sorted()"
+    for r_ in [x for x in ast.walk(sig.node) if isinstance(x, ast.Return) and x.value is not None]:
+        v_ = r_.value
+        if isinstance(v_, ast.Name):
+            defs_ = [x.value for x in ast.walk(sig.node) if isinstance(x, (ast.Assign, ast.AnnAssign)) and x.value is not None
+                     and any(isinstance(t, ast.Name) and t.id == v_.id for t in (x.targets if isinstance(x, ast.Assign) else [x.target]))]
+            v_ = defs_[0] if defs_ else v_
+        if isinstance(v_, (ast.Dict, ast.DictComp)) or (isinstance(v_, ast.Call) and isinstance(v_.func, ast.Name) and v_.func.id == "dict"):
+            unordered, how = True, "a dict keyed by field (dict equality ignores insertion order)"
     ctx.ob("C11.R1", sig, "the signature preserves field order", None, not unordered,
            "column order is consumed (pa.schema(fields) in list order; concat_tables and Schema.equals are order-sensitive)"
            + (f"; the signature is built with {how}: a reordered schema argument is accepted, the file's column order differs "
@@ -153,6 +161,25 @@ def r1(ctx: Ctx) -> None:
     # sibling validator of the file-level API is Schema.equals (order + names + types + nullability)
     vf = ctx.fn(TX + "._validate_file_schema")
     eq = [n for n in ctx.cfg(vf).calls() if n.callee and n.callee.name.endswith(".equals")]
+    # the check is skipped only for files that are not parquet - however the format is spelled (enum member or its string)
+    vg_ = ctx.cfg(vf)
+    fvars = {t.id for n in vg_.nodes if n.kind == "stmt" and isinstance(n.ast, ast.Assign) and isinstance(n.ast.value, ast.Attribute)
+             and n.ast.value.attr == "file_format" for t in n.ast.targets if isinstance(t, ast.Name)}
+    fattrs = {dotted(x) for x in ast.walk(vf.node) if isinstance(x, ast.Attribute) and x.attr == "file_format" and dotted(x)}
+    pq_member = next((EnumVal(ci.name, "PARQUET", ci.consts["PARQUET"].value) for ci in ctx.prog.classes.values()
+                      if ci.name == "FileFormat" and isinstance(ci.consts.get("PARQUET"), ast.Constant)), None)
+    if eq and pq_member is not None and (fvars or fattrs):
+        vdom = ctx.dom(vf, ALL)
+        for label, val in (("the enum member FileFormat.PARQUET", pq_member), (f"the string {pq_member.value!r}", pq_member.value)):
+            env = {k: val for k in fvars | fattrs}
+            reached, undec = scenario_walk(ctx, vf, [vg_.entry], env)
+            early = [vg_.nodes[x] for x in reached if vg_.nodes[x].kind == "return" and not any(e_.id in vdom[x] for e_ in eq)]
+            ctx.ob("C11.R1", vf, "a parquet file is never skipped by the format guard", early[0] if early else eq[0],
+                   undec or not early,
+                   f"scenario file_format = {label}: " + ("the guard could not be evaluated (undecided)" if undec else
+                   ("the footer-schema comparison is reached" if not early else
+                    "the function returns before the footer-schema comparison - a divergent pre-built file tagged this way commits "
+                    "unchecked and every later full scan fails")), text=label)
     ctx.ob("C11.R1", vf, "file-level API compares full Arrow schemas (names, order, types AND nullability)", eq[0] if eq else None, bool(eq),
            "pa.concat_tables needs identical schemas: a pre-built file differing only in a column's optional/required flag is accepted "
            "by a name/type-only comparison and breaks every later full scan", nontrivial=False)
